@@ -1,0 +1,40 @@
+//go:build verif
+
+// Package verifhook holds the seams used by the deterministic simulator in
+// /verif.  This file is only compiled with build tag "verif".
+package verifhook
+
+import (
+	"net/http"
+	"time"
+
+	expect "github.com/tailscale/goexpect"
+)
+
+// Set by the simulator.
+var (
+	Console func(cmd []string, timeout time.Duration) (*expect.GExpect, error)
+	HTTP    func(timeout, loginTimeout time.Duration, ip string) (*http.Client, string)
+	Yield   func(point string)
+)
+
+func SpawnConsole(cmd []string, timeout time.Duration) (*expect.GExpect, bool, error) {
+	if Console == nil {
+		return nil, false, nil
+	}
+	con, err := Console(cmd, timeout)
+	return con, true, err
+}
+
+func HTTPClient(timeout, loginTimeout time.Duration, ip string) (*http.Client, string) {
+	if HTTP == nil {
+		return nil, ""
+	}
+	return HTTP(timeout, loginTimeout, ip)
+}
+
+func Point(name string) {
+	if Yield != nil {
+		Yield(name)
+	}
+}
